@@ -11,6 +11,12 @@
 //   d Then(deferred executor, drained by the observer after it destroyed its copy)
 //   s SubscribeInline  u Subscribe(executor)            k Share(f) + DetachInline      K Connect(f, SharedPromise)
 //   a co_await f       c copy kept until the end        x copy destroyed at once       z destroy the copy now
+//   U V W Y  a continuation of ANOTHER (unique) future returns this SharedFuture, the library flattens it (Core::
+//      CallResolveAsync -> SharedCore::SetInline -> async_done copies the Result into the outer step); the outer step's
+//      continuation is attached first, then the outer source is fulfilled:
+//      U ThenInline, by this observer           V Then(executor), by this observer
+//      W ThenInline, callback owns a copy, the outer source is fulfilled by the fulfilling fiber AFTER the shared Set
+//      Y the same, fulfilled by the fulfilling fiber BEFORE the shared Set   (leftovers: by the main fiber at the end)
 #include <deque>
 
 #include "vrt_all.hpp"
@@ -256,7 +262,37 @@ yaclib::Future<> Awaiter(const SF& f, CbRec* rec, std::string src, std::string h
 }
 #endif
 
-void Observer(int oi, SF f, const std::string& ops, Run& run, CountingInline& exe, Deferred& deferred) {
+// sources of outer pipelines that somebody else fulfils
+struct Outer {
+  std::deque<yaclib::Promise<int, Err>> early;  // by the fulfilling fiber before the shared Set
+  std::deque<yaclib::Promise<int, Err>> late;   // by the fulfilling fiber after it
+  static void SetAll(std::deque<yaclib::Promise<int, Err>>& q) {
+    while (!q.empty()) {
+      auto pr = std::move(q.front());
+      q.pop_front();
+      std::move(pr).Set(1);
+    }
+  }
+};
+
+// a SharedFuture copy owned by a callback object; its release is announced to the trace
+struct Cap {
+  SF g;
+  std::string name;
+  Cap(SF x, std::string n) : g{std::move(x)}, name{std::move(n)} {
+  }
+  Cap(Cap&&) = default;
+  Cap(const Cap&) = delete;
+  ~Cap() {
+    if (g.Valid()) {
+      vrt::Event("destroy " + name);
+      std::move(g).Detach();
+      vrt::Event("destroyed");
+    }
+  }
+};
+
+void Observer(int oi, SF f, const std::string& ops, Run& run, CountingInline& exe, Deferred& deferred, Outer& outer) {
   const std::string h = "h" + std::to_string(oi);
   std::vector<std::pair<std::string, SF>> copies;
   bool have = true;
@@ -398,6 +434,49 @@ void Observer(int oi, SF f, const std::string& ops, Run& run, CountingInline& ex
         break;
       }
 #endif
+      case 'U':
+      case 'V':
+      case 'W':
+      case 'Y': {
+        auto& rec = run.NewCb(cbname());
+        const std::string tmp = h + "u" + std::to_string(n++);
+        auto [uf0, up0] = yaclib::MakeContract<int, Err>();
+        yaclib::Future<Val, Err> uf;
+        if (op == 'U' || op == 'V') {
+          // the copy returned by the callback is the temporary handle the library attaches through and releases
+          auto body = [&f, h, tmp, &rec](int) {
+            vrt::Event("unwrap " + h + " " + tmp + " " + rec.name);
+            return f;
+          };
+          if (op == 'U') {
+            uf = std::move(uf0).ThenInline(std::move(body));
+          } else {
+            uf = std::move(uf0).Then(exe, std::move(body)).On(nullptr);
+          }
+        } else {
+          const std::string cap = h + "v" + std::to_string(n++);
+          vrt::Event("copy " + h + " " + cap);
+          Cap owned{f, cap};
+          uf = std::move(uf0).ThenInline([owned = std::move(owned), tmp, &rec](int) {
+            vrt::Event("unwrap " + owned.name + " " + tmp + " " + rec.name);
+            return owned.g;
+          });
+        }
+        std::move(uf).DetachInline([&rec](R&& r) {  // the outer step's result
+          long code = Code(r);
+          Fired(rec, code);
+          vrt::Event("cb " + rec.name + " " + std::to_string(code));
+        });
+        if (op == 'U' || op == 'V') {
+          std::move(up0).Set(1);
+          vrt::Event("attached");
+        } else if (op == 'W') {
+          outer.late.push_back(std::move(up0));
+        } else {
+          outer.early.push_back(std::move(up0));
+        }
+        break;
+      }
       case 'c': {
         std::string name = h + "c" + std::to_string(copies.size());
         vrt::Event("copy " + h + " " + name);
@@ -510,8 +589,10 @@ void RunPlan(const Plan& plan) {
   Run run;
   CountingInline exe;
   std::deque<Deferred> deferred(plan.obs.size());
+  Outer outer;
   yaclib_std::thread tf([&] {
     vrt::NameThread("F");
+    Outer::SetAll(outer.early);
     U.set_started = true;
     vrt::Event("set " + std::to_string(U.expected));
     if (fk == "set" || fk == "nofut") {
@@ -524,19 +605,22 @@ void RunPlan(const Plan& plan) {
       std::move(*up).Set(Val{2});  // reaches the shared state through SharedCore::Here (Impl<false, true>)
     }
     vrt::Event("setdone");
+    Outer::SetAll(outer.late);
   });
   std::vector<yaclib_std::thread> ts;
   ts.reserve(plan.obs.size());
   for (std::size_t i = 0; i < plan.obs.size(); ++i) {
     ts.emplace_back([&, i, f = std::move(handles[i])]() mutable {
       vrt::NameThread("O" + std::to_string(i));
-      Observer(static_cast<int>(i), std::move(f), plan.obs[i], run, exe, deferred[i]);
+      Observer(static_cast<int>(i), std::move(f), plan.obs[i], run, exe, deferred[i], outer);
     });
   }
   tf.join();
   for (auto& t : ts) {
     t.join();
   }
+  Outer::SetAll(outer.early);  // whatever was queued after the fulfilling fiber had passed
+  Outer::SetAll(outer.late);
   for (auto& d : deferred) {
     d.Drain();
   }
